@@ -64,7 +64,12 @@ func frontOps() []raceOp {
 	build := func(ctx context.Context) (interface{}, error) { return 7, nil }
 	buildOf := func(ctx context.Context) (int, error) { return 7, nil }
 	fail := func(ctx context.Context) (interface{}, error) { return nil, tokErr{n: 3} }
+	slow := func(ctx context.Context) (interface{}, error) { time.Sleep(30 * time.Microsecond); return 8, nil }
 	return []raceOp{
+		{"Failover.GetSlowBuild", func(e *raceEnv, i int) {
+			_ = e.b.Delete(e.ctx, e.keys[i%3])
+			_, _ = e.fe.Get(e.ctx, e.keys[i%3], slow)
+		}},
 		{"Failover.Get", func(e *raceEnv, i int) { _, _ = e.fe.Get(e.ctx, e.keys[i%3], build) }},
 		{"Failover.GetFail", func(e *raceEnv, i int) { _, _ = e.fe.Get(e.ctx, e.keys[3], fail) }},
 		{"Failover.GetStale", func(e *raceEnv, i int) {
@@ -127,7 +132,11 @@ func runRaceChild(o Opts) *Result {
 					e.b = NewBackend(BCfg{Kind: "sharded", TTL: time.Hour, Jitter: Rat{1, 10, 0.1}, Name: "race"}, NewKeyTable())
 					bk = e.b.Raw().(*cache.ShardedMap)
 				}
-				e.fe = cache.NewFailover(func(c *cache.FailoverConfig) { c.Backend = bk; c.FailedUpdateTTL = time.Millisecond })
+				e.fe = cache.NewFailover(func(c *cache.FailoverConfig) {
+					c.Backend = bk
+					c.FailedUpdateTTL = time.Millisecond
+					c.SyncRead = strategy == 1
+				})
 				e.feOf = cache.NewFailoverOf[int](func(c *cache.FailoverConfigOf[int]) { c.SyncRead = strategy == 1 })
 				e.ix = cache.NewInvalidationIndex(e.b.Raw().(cache.Deleter))
 				e.inv = &cache.Invalidator{SkipInterval: time.Microsecond, Callbacks: []func(context.Context){func(context.Context) {}}}
